@@ -118,10 +118,48 @@ def resolve_idents(v, arm_body, target, getter, depth=0):
     return out
 
 
+DMF = "program_structure/src/intermediate_representation/degree_meta.rs"
+DEGS = ["Constant", "Linear", "Quadratic", "NonQuadratic"]
+
+
+def closure_is_all_constant(cl):
+    """Is the one-parameter closure `|a| ..` true exactly when a.degree() is known and constant?  Decided by evaluating
+    it (finite-function evaluator) on an element whose degree() is None and Some(range) for all 10 ranges."""
+    from finfun import E as FE, NONE as FNONE, S as FS, Unsupported as FUnsupported, World as FWorld
+
+    try:
+        w = FWorld([DMF])
+        cases = [(FNONE, False)]
+        for lo in range(4):
+            for hi in range(lo, 4):
+                cases.append((FS("Some", FS("DegreeRange", FE("Degree", DEGS[lo]), FE("Degree", DEGS[hi]))), hi == 0))
+        for deg, want in cases:
+            elem = ("O", "element", (("degree", deg),))
+            got = w.apply(("C", cl, {}), [elem], [])
+            if got is not want:
+                return False
+        return True
+    except FUnsupported:
+        return False
+
+
 def guard_sources(conds, arm_body, target, getter):
     """Sources that guard the write positively: (kind, what)."""
     out = set()
     extra = []
+    # a condition that is a plain name stands for its definition (`let all_constant = ..; if all_constant`)
+    from pathcond import let_env as _let_env
+
+    lenv = _let_env(arm_body, target)
+    conds2 = []
+    for f in conds:
+        if f[0] == "if" and strip(f[1]).get("k") == "Path" and strip(f[1])["path"] in lenv:
+            from pathcond import split_cond as _sc
+
+            conds2 += _sc(lenv[strip(f[1])["path"]], f[2])
+        else:
+            conds2.append(f)
+    conds = conds2
     for f in conds:
         if f[0] == "arm" and f[3] is not None:
             from pathcond import split_cond
@@ -155,7 +193,7 @@ def guard_sources(conds, arm_body, target, getter):
                     "matches!(%s.degree(),Some(range)ifrange.is_constant())" % var,
                 )
                 norm = re.sub(r"\blet\b", "let ", body)
-                if body in forms or norm.replace(" ", "") in [x.replace(" ", "") for x in forms]:
+                if body in forms or norm.replace(" ", "") in [x.replace(" ", "") for x in forms] or (getter == "degree" and closure_is_all_constant(cl)):
                     out.add(("all-const", coll))
             # values.len() == 1 over a set collected from all args
             if e["k"] == "Binary" and e["op"] == "==" and render(e["r"]) == "1" and render(e["l"]).endswith(".len()"):
@@ -288,7 +326,34 @@ def helper_all_some(ctx, R, kind):
             if les and okle and covered == set(params):
                 ctx.ok(R, key, "let-else on every operand fact, returning None", site(EI, fn))
                 continue
-            ctx.missing(R, key, "no match / if-let / let-else on the operand facts")
+            # any other shape (Option combinators, `?`, helper closures): evaluate the helper for every operator with
+            # each combination of operand facts in which at least one is unknown - the result must be None
+            from finfun import E as FE, NONE as FNONE, S as FS, Unsupported as FUnsupported, World as FWorld
+            import itertools
+
+            try:
+                w = FWorld([EI, "program_structure/src/intermediate_representation/ir.rs", "program_structure/src/intermediate_representation/degree_meta.rs", "program_structure/src/intermediate_representation/value_meta.rs"])
+                ops = w.enums.get(ty) or []
+                nonparams = [i for i in fn["sig"]["inputs"] if not i.get("self")]
+                wrong = []
+                for op in ops:
+                    for combo in itertools.product((False, True), repeat=arity):
+                        if all(combo):
+                            continue
+                        it = iter(combo)
+                        args = []
+                        for i in nonparams:
+                            if i["ty"].replace(" ", "").startswith("Option<"):
+                                args.append(FS("Some", ("O", "known")) if next(it) else FNONE)
+                            else:
+                                args.append(("O", i["pat"].get("name", "arg")))
+                        if w.call_fn(fn, [FE(ty, op)] + args) != FNONE:
+                            wrong.append("%s%s" % (op, combo))
+                if not ops:
+                    raise FUnsupported("operators of %s not found" % ty)
+                ctx.check(R, key, not wrong, "evaluated for %d operators x %d operand combinations; a fact is returned although an operand is unknown: %s" % (len(ops), 2 ** arity - 1, wrong[:6]), site(EI, fn))
+            except FUnsupported as ex:
+                ctx.missing(R, key, "no match / if-let / let-else on the operand facts, and the evaluator cannot decide: %s" % ex)
             continue
         bad = []
         if top["k"] == "Match":
